@@ -50,6 +50,9 @@ def sub(argv, timeout, tag):
 
 
 def run_condition(mod, c):
+    scale = float(os.environ.get("VF_TIMEOUT_SCALE", "1"))     # smoke runs of a tier (recorded in the evidence as bounds.timeout_scale)
+    if scale != 1:
+        c = dict(c, timeout=max(5, int(c["timeout"] * scale)))
     argv = [PY, "-m", "vf.chrun", mod, c["name"], str(c["timeout"])]
     if c.get("per_path"):
         argv.append(str(c["per_path"]))
@@ -275,7 +278,7 @@ def main():
             "samples": samples or [{"note": "no conditions"}],
             "exhaustive": bool(props_run) and all(r["verdict"] == "confirmed" for r in props_run) and not any(q.get("inconclusive") for q in e2),
             "functions_encoded": meta.get("functions_encoded", []),
-            "bounds": spec.get("bounds", meta.get("bounds", {})),
+            "bounds": dict(spec.get("bounds", meta.get("bounds", {})), **({"timeout_scale": float(os.environ["VF_TIMEOUT_SCALE"])} if os.environ.get("VF_TIMEOUT_SCALE", "1") not in ("1", "1.0") else {})),
             "outside_claim": meta.get("outside", []),
             "stubs": meta.get("stubs", []),
             "conditions": {"generated": len(conds), **counts},
